@@ -24,6 +24,7 @@ def what(d):
     if not os.path.exists(p):
         return ""
     txt = open(p, encoding="utf-8").read()
+    txt = re.sub(r"^demo_dir:[^\n]*\n+", "", txt)
     m = re.search(r"(?:The change|Change)[^\n]*\n+(.*?)(?:\n\n|\n#)", txt, re.S)
     t = (m.group(1) if m else txt[:300]).replace("\n", " ")
     t = re.sub(r"\s+", " ", t).replace("|", "/")
